@@ -852,6 +852,7 @@ theorem step {st : St} (h : J st) (e : Event) : J (st.step e).1 := by
     | ioStale d => exact cio.prepareIoAt h _
     | setMaxIdle n => exact h.misc st.now st.timeout n st.resAlive st.dirty
     | setTimeout n => exact h.misc st.now n st.maxIdle st.resAlive st.dirty
+    | ownClient k => exact ⟨Inv.closed.newOwned st h.I, h.C.congr rfl⟩
     | freeContext =>
       dsimp only
       apply J.teardownFrom
